@@ -1,7 +1,7 @@
 (* line protocol (strings: 'e' or dot-separated decimal code points; lists: comma separated, '-' = empty):
      K <class id> <name> <base id,..|->   pydsdl class forest entry
      U <key> <class id> <body> <dep,dep,..>   universe entry
-     T <cfg> <key> <item> <item> ...      script of (configuration, type): t:<str> | u:<key>:<base>:<pre>:<suf> | m:<q>
+     T <cfg> <key> <item> <item> ...      script of (configuration, type): t:<str> | u:<key>:<base>:<pre>:<suf> | m:<q> | k (marker)
      N <cfg> <stem=path,..|-> <pps> <key,key,..>   construct a generator with a template listing; pps: '-' or colon-separated T | L<n> | L<n>@<count>
      R <gid> <key,key,..>                 generate_all of generator gid in this order
      C                                    clear caches
@@ -32,6 +32,7 @@ let parse_item t =
   | ["t"; s] -> IText (parse_str s)
   | ["u"; k; b; p; x] -> IUniq (parse_str k, parse_str b, parse_str p, parse_str x)
   | ["m"; q] -> IMemo (parse_str q)
+  | ["k"] -> IMark
   | _ -> failwith ("item " ^ t)
 
 let () =
